@@ -53,11 +53,19 @@ def code_points(tier: str) -> Iterator[Tuple[str, bool]]:
     """Every non-ASCII code point of the Basic Multilingual Plane (thorough: every code point) as a character of the
     service label: caseless matching and Unicode-aware character classes let a few of them pass as a letter or digit."""
     top = 0x10000 if tier == "quick" else 0x110000
-    for cp in range(0x80, top):
-        if 0xD800 <= cp < 0xE000:
-            continue
+    # every ASCII character (control characters, newline, punctuation) at the start, in the middle and at the end of the
+    # service label
+    for cp in range(0x00, 0x80):
         c = chr(cp)
-        for name in (f"_a{c}._tcp.local.", f"_{c}._tcp.local.", f"_1{c}._udp.local."):
+        for name in (f"_a{c}._tcp.local.", f"_{c}a._tcp.local.", f"_a{c}b._tcp.local.", f"x._a{c}._udp.local.",
+                     f"x._sub._a{c}._tcp.local."):
+            for strict in (True, False):
+                yield (name, strict)
+    for cp in range(0x80, top):
+        c = chr(cp)  # lone surrogates included: such a string cannot be a name, and must be refused like any other
+        # ... and as a character of the instance / subtype label, where everything but ASCII control characters is legal
+        for name in (f"_a{c}._tcp.local.", f"_{c}._tcp.local.", f"_1{c}._udp.local.", f"x{c}y._http._tcp.local.",
+                     f"{c}._sub._http._tcp.local."):
             for strict in (True, False):
                 yield (name, strict)
 
